@@ -8,6 +8,12 @@ EXC_NAMES = ["Fault", "TypeError", "ValueError", "AttributeError", "KeyError",
              "RuntimeError", "LookupError", "IndexError", "OSError", "AssertionError", "RecursionError",
              "NotImplementedError", "EOFError", "TimeoutError", "ZeroDivisionError"]
 
+# a flag parameter is whatever the caller finds true or false, not only the two singletons
+FLAG = st.sampled_from([True, False, True, False, 1, 0, "yes", ""])
+# (list.sort insists on an integer, and merge is annotated bool and combines the flag with ^: nothing is claimed
+# about flags that are not integers there)
+INT_FLAG = st.sampled_from([True, False, True, False, 1, 0])
+
 K = st.integers(0, 3).map(lambda k: ("K", k))  # placeholder: Item with this key
 
 
@@ -216,7 +222,7 @@ def base_case(draw, name, max_len=8, max_src=4, steps="full", min_len=0, min_src
         return uids.fix(draw(elem))
 
     if name == "zip":
-        params["strict"] = draw(st.booleans())
+        params["strict"] = draw(FLAG)
     elif name == "enumerate":
         params["start"] = draw(st.integers(-2, 5))
     elif name == "iter_sentinel":
@@ -245,7 +251,7 @@ def base_case(draw, name, max_len=8, max_src=4, steps="full", min_len=0, min_src
             v["initial"] = uids.fix(("GR", "eq", "ValueError"))  # ... or that cannot be compared
     elif name == "batched":
         params["n"] = draw(st.integers(1, 5))
-        params["strict"] = draw(st.booleans())
+        params["strict"] = draw(FLAG)
     elif name == "chain_from_iterable":
         params["outer"] = {"fl": "agen", "susp": 0, "csusp": False, "fault": None}
     elif name == "islice":
@@ -257,7 +263,7 @@ def base_case(draw, name, max_len=8, max_src=4, steps="full", min_len=0, min_src
             v["fillvalue"] = draw(st.one_of(st.just(["n"]), K.map(uids.fix), st.just(["s", "fill"]),
                                             st.just(("EQ",)).map(uids.fix), st.just(("GR", "eq", "ValueError")).map(uids.fix)))
     elif name == "merge":
-        params["reverse"] = draw(st.booleans())
+        params["reverse"] = draw(INT_FLAG)
         for s in srcs:
             if s.get("alias") is not None:
                 continue
@@ -306,7 +312,7 @@ def base_case(draw, name, max_len=8, max_src=4, steps="full", min_len=0, min_src
         if kw:
             v["kw"] = kw
     elif name == "sorted":
-        params["reverse"] = draw(st.booleans())
+        params["reverse"] = draw(INT_FLAG)
     elif name == "reduce":
         choice = draw(st.integers(0, 5))
         if choice == 1:
